@@ -909,7 +909,7 @@ fam_enum!(Msg {
 });
 fam_enum!(Tree { Leaf, Node(Box<Tree>, i32, Box<Tree>), Many(Vec<Tree>), Tagged { tag: String, child: Option<Box<Tree>> } });
 fam_enum!(Expr { Lit(i64), Neg(Box<Expr>), Add(Box<Expr>, Box<Expr>), Var { name: String }, Call { f: String, args: Vec<Expr> } });
-// K2: a tuple variant without fields
+// a tuple variant without fields (former finding C16-empty-tuple-variant, repaired)
 fam_enum!(Degenerate { Plain, Zero(), One(u8) });
 
 /// renamed fields / variants (hand-written descriptor)
@@ -983,13 +983,14 @@ impl Fam for TokMap {
 // canonical observables
 
 /// json-syntax number: integer spellings exactly, others as the double they read as
+/// (str::parse::<f64>, what `visit_number` hands to the visitor)
 fn enc_num(n: &json_syntax::Number, out: &mut String) {
     if let Some(u) = n.as_u64() {
         out.push_str(&format!("I{u}"));
     } else if let Some(i) = n.as_i64() {
         out.push_str(&format!("I{i}"));
     } else {
-        out.push_str(&format!("F{:x}", n.as_f64_lossy().to_bits()));
+        out.push_str(&format!("F{:x}", n.as_str().parse::<f64>().unwrap().to_bits()));
     }
 }
 fn enc_cvalue(v: &Value, out: &mut String) {
@@ -1106,8 +1107,11 @@ fn shape_js(v: &Value, p32: bool) -> Shp {
             if p32 { key_of_f64((u as f32) as f64, false) } else { NKey::Int(u as i128) }
         } else if let Some(i) = n.as_i64() {
             if p32 { key_of_f64((i as f32) as f64, false) } else { NKey::Int(i as i128) }
+        } else if p32 {
+            // at binary32 precision the spelling is read as a binary32 directly
+            key_of_f64(n.as_str().parse::<f32>().unwrap() as f64, false)
         } else {
-            key_of_f64(n.as_f64_lossy(), p32)
+            key_of_f64(n.as_str().parse::<f64>().unwrap(), false)
         }),
         Value::String(s) => Shp::Str(s.to_string()),
         Value::Array(a) => Shp::Arr(a.iter().map(|x| shape_js(x, p32)).collect()),
